@@ -30,6 +30,15 @@ def run(R):
                 for (i, bit) in outside:
                     rb2 = rb[:i] + bytes([rb[i] ^ bit]) + rb[i + 1:]
                     add("G rn %s 0 %s %d 192" % (hx(pfx), hx(rb2), n), (m, n, "flip-out", rb, (i, bit)))
+    # every output size: a call that succeeds with a smaller (or larger) buffer must carry the same salt as with 192 bytes - never a
+    # shorter or empty one (seeded/C12b: fields silently skipped when the buffer is tight)
+    for m in methods:
+        pfx = GS.TAGS[m]
+        for n in ([16, 64] if quick else [4, 8, 16, 20, 32, 48, 64, 100]):
+            rb = bytes(R.rng.randrange(256) for _ in range(n))
+            add("G rn %s 0 %s %d 192" % (hx(pfx), hx(rb), n), (m, n, "size-base", rb, None))
+            for osz in (list(range(3, 130)) + [150, 191, 193, 256, 1000]):
+                add("G rn %s 0 %s %d %d" % (hx(pfx), hx(rb), n, osz), (m, n, "size", rb, osz))
     # automatic entropy: deterministic interposed RNG for the model comparison, then the real one twice
     for m in methods + ["NULL"]:
         pfx = GS.TAGS.get(m)
@@ -47,6 +56,17 @@ def run(R):
     for op, (m, n, kind, rb, flip), line in zip(ops, meta, il):
         if kind == "os": continue
         f = fields(line)
+        if kind == "size-base": base[(m, n, rb, "size")] = f; continue
+        if kind == "size":
+            b192 = base.get((m, n, rb, "size"))
+            if f["ret"] != "NULL":
+                s2 = unhx(f["ret"]); bits = GS.salt_bits(m, s2)
+                if bits < GS.MIN_BITS[m] or bits == 0:
+                    bad.append((op, "%s: with output_size %d the generated salt has %d bits, below the documented minimum %d: %r" % (m, flip, bits, GS.MIN_BITS[m], s2), line))
+                elif b192 is not None and b192["ret"] != "NULL" and not unhx(b192["ret"]).startswith(s2.rstrip(b"$")):
+                    bad.append((op, "%s: the setting generated with output_size %d is not a leading part of the one generated with 192 bytes from the same random bytes: %r vs %r"
+                                % (m, flip, s2, unhx(b192["ret"])), line))
+            continue
         if kind in ("base", "auto-interposed"):
             base[(m, n, rb)] = f
             if kind == "base":
@@ -90,7 +110,7 @@ def run(R):
     R.cov["distinct_nontrivial"] = len({(m[0], m[1]) for m in meta if m[2] == "base"})
     R.cov["rule"] = ("13 salted prefixes x nrbytes 0..69 and boundary values up to 256 x random bytes; single-bit flips of every bit of the consumed window "
                      "(quick: sampled) must change the setting, flips outside must not; minimum/standard salt sizes; short inputs must give EINVAL; "
-                     "NULL rbytes with the real CSPRNG twice; non-trivial = distinct (method, nrbytes)")
+                     "every output size 3..129 (and some larger): a success is a leading part of the 192-byte result and still carries the method's minimum salt; NULL rbytes with the real CSPRNG twice; non-trivial = distinct (method, nrbytes)")
     R.cov["samples"] = [{"op": ops[i][:200], "impl": il[i][:200], "model": ml[i][:200]} for i in R.rng.sample(range(len(ops)), 4)]
     finish_proof(R, ok, badthm, bad, diffs, "gensalt salt")
 
